@@ -1,11 +1,13 @@
 //! One module per property.
 pub mod common;
+pub mod progs;
 pub mod c02;
 pub mod c03;
 pub mod c04;
 pub mod c05;
 pub mod c06;
 pub mod c07;
+pub mod c08;
 pub mod c10;
 pub mod c13;
 pub mod c14;
@@ -21,6 +23,7 @@ pub fn run(id: &str, cfg: &Cfg) -> Option<Report> {
         "C05" => c05::run(cfg),
         "C06" => c06::run(cfg),
         "C07" => c07::run(cfg),
+        "C08" => c08::run(cfg),
         "C10" => c10::run(cfg),
         "C13" => c13::run(cfg),
         "C14" => c14::run(cfg),
@@ -36,6 +39,7 @@ pub fn replay(id: &str, case: &J) -> Option<i32> {
         "C05" => c05::replay(case),
         "C06" => c06::replay(case),
         "C07" => c07::replay(case),
+        "C08" => c08::replay(case),
         "C10" => c10::replay(case),
         "C13" => c13::replay(case),
         "C14" => c14::replay(case),
